@@ -38,9 +38,9 @@ def is_jwk(value: Dict[str, Any]) -> None:
         raise ValueError("must be a JWK")
 
 
-def in_choices(choices: list[str]) -> Callable[[Union[str, list[str]]], None]:
+def in_choices(choices: list[str], allow_list: bool = True) -> Callable[[Union[str, list[str]]], None]:
     def _is_one_of(value: str | list[str]) -> None:
-        if isinstance(value, list):
+        if isinstance(value, list) and allow_list:
             if not all(v in choices for v in value):
                 raise ValueError(f"must be one of {choices}")
 
@@ -135,7 +135,7 @@ JWE_HEADER_REGISTRY = {
 #: Basic JWK parameter registry
 JWK_PARAMETER_REGISTRY = {
     "kty": KeyParameter("Key Type", is_str, required=True),  # This member MUST be present in a JWK.
-    "use": KeyParameter("Public Key Use", in_choices(["sig", "enc"])),
+    "use": KeyParameter("Public Key Use", in_choices(["sig", "enc"], allow_list=False)),  # a string, never a list
     "key_ops": KeyParameter(
         "Key Operations",
         in_choices([
